@@ -9,8 +9,15 @@ SPEC = {
                   ('pkg/secretstore', 'harness/secretstore/zz_verif_c10_test.go')],
         'model_module': 'Model.C10_Crash', 'imports': ['From Wesh Require Import Model.Store Model.C02_Ratchet.'],
         'shard': 4, 'timeout': 1200,
+    }, {
+        'name': 'namedkeys', 'pkg': './pkg/secretstore', 'test': 'TestVerifC10Keys',
+        'files': [('pkg/secretstore', 'harness/secretstore/zz_verif_common_test.go'),
+                  ('pkg/secretstore', 'harness/secretstore/zz_verif_c10_test.go'),
+                  ('pkg/secretstore', 'harness/secretstore/zz_verif_c10keys_test.go')],
+        'model_module': 'Model.C10_Keys', 'imports': ['From Wesh Require Import Model.C11_Keys.'],
+        'shard': 100, 'timeout': 600,
     }],
-    'rule': 'workloads (scripted skeleton + random fill) of register / open / own-seal operations on a real SecretStore over a '
+    'rule': 'named-keys stream: the names the keystore writes, in order, during the first use of a store (account keys imported or not; the group of each of the three kinds obtained, its member/device pair asked for, the account keys exported) compared with the sequence of puts of Model.C10_Keys (whose intermediate states are the states a stop can leave); workloads (scripted skeleton + random fill) of register / open / own-seal operations on a real SecretStore over a '
             'recording datastore (puts, deletes, atomic batch commits); the symbolic mutation sequence and result of every operation '
             'is compared with the model; then EVERY mutation index of the workload is taken as a crash point: restart on the '
             'replayed prefix and check the four recovery claims plus continued delivery; a workload is non-trivial when it has more '
